@@ -19,7 +19,10 @@ THEOREMS = [
 RULE = (
     "1..4 callers started at distinct ticks on one stream pair x every permutation of the answer order x answer ticks "
     "around poll boundaries (tie-free residues) x interleaved notifications / foreign responses / duplicate answers / errors; "
-    "real send_message x n under the virtual-time loop vs Shared.sim; non-trivial = distinct case with >= 2 callers"
+    "real send_message x n under the virtual-time loop vs Shared.sim; non-trivial = distinct case with >= 2 callers; "
+    "stdio-burst: one caller on a real StdioClient (scripted child): answer after 0..400 (thorough ..2500) notifications in one or two reads, "
+    "negotiated versions, one batch line, a poison line before the answer, a one-shot per-request monitor stream for the same / another id "
+    "kept open or closed before the answer, results that are falsy / not objects / null"
 )
 TRUSTED = ["anyio memory-stream hand-off order and cancel scopes (sampled under the virtual-time loop)"]
 ASSUMPTIONS = ["no two timer/arrival instants of different callers coincide in the generated schedules"]
@@ -249,7 +252,30 @@ class StdioBurst(Suite):
                         if ver:
                             c["ver"] = ver
                         out.append(c)
+        # somebody else listens for the same (or another) id through the one-shot per-request
+        # stream of the client (`new_request_stream`) and keeps it open, or has given up and closed
+        # it before the answer arrives: the caller's own delivery on the main stream is unaffected
+        for mon in ("open", "closed", "other-open", "other-closed"):
+            for k in ([0, 3, 101] if budget == "quick" else [0, 1, 3, 99, 100, 101, 400]):
+                for split in (False, True):
+                    for ver in (None, "2025-06-18"):
+                        c = {"k": k, "split": split, "id": f"burst-{k}", "D": 4 * P, "monitor": mon}
+                        if ver:
+                            c["ver"] = ver
+                        out.append(c)
+        # results that are not an object, falsy, or null: the response still reaches its caller
+        for payload in (None, {}, [], 0, False, "", [1, None], "text", 7.5, {"n": None}):
+            for k in (0, 2):
+                for ver in (None, "2025-06-18"):
+                    c = {"k": k, "split": False, "id": f"burst-{k}", "D": 4 * P, "payload": payload}
+                    if ver:
+                        c["ver"] = ver
+                    out.append(c)
         return out
+
+    @staticmethod
+    def want(case):
+        return case["payload"] if "payload" in case else {"answer": case["k"]}
 
     def impl_batch(self, cases):
         import anyio
@@ -266,7 +292,7 @@ class StdioBurst(Suite):
             lines = [_json.dumps({"jsonrpc": "2.0", "method": "notifications/message", "params": {"i": i}}) for i in range(case["k"])]
             if case.get("poison"):
                 lines.append(poison_line(case["poison"]))
-            lines.append(_json.dumps({"jsonrpc": "2.0", "id": case["id"], "result": {"answer": case["k"]}}))
+            lines.append(_json.dumps({"jsonrpc": "2.0", "id": case["id"], "result": StdioBurst.want(case)}))
             if case.get("batch"):
                 items = [_json.loads(x) for x in lines]
                 resp = items.pop()
@@ -285,6 +311,11 @@ class StdioBurst(Suite):
                     read, write = client.get_streams()
                     if case.get("ver"):
                         client.set_protocol_version(case["ver"])
+                    if case.get("monitor"):
+                        rs = client.new_request_stream(case["id"] if not case["monitor"].startswith("other") else "someone-else")
+                        if case["monitor"].endswith("closed"):
+                            rs.close()
+                        holder["monitor"] = rs
                     try:
                         o["p"] = await send_message(read, write, "tools/call", {"k": case["k"]},
                                                     timeout=case["D"] * vloop.TICK, message_id=case["id"])
@@ -310,7 +341,9 @@ class StdioBurst(Suite):
 
     def model_line(self, case, o=None):
         ev = [[1, {"k": "notif", "method": "notifications/message"}] for _ in range(case["k"])]
-        ev.append([1, {"k": "resp", "id": {"s": case["id"]}, "p": {"answer": case["k"]}}])
+        if "payload" in case and case["payload"] is None:
+            return None  # result: null is outside the model's payloads: oracle only
+        ev.append([1, {"k": "resp", "id": {"s": case["id"]}, "p": self.want(case)}])
         return {"m": "await", "id": {"s": case["id"]}, "D": case["D"], "P": P, "ev": ev, "eventsFirst": True}
 
     def model_obs(self, out, case):
@@ -320,16 +353,22 @@ class StdioBurst(Suite):
         return None if (o.get("outcome"), o.get("p")) == (m.get("outcome"), m.get("p")) else "differs"
 
     def kind(self, case, o):
-        return f"stdio-burst/{o.get('outcome')}/k{'<100' if case['k'] < 100 else '>=100'}/ver={case.get('ver')}" + ("/batch" if case.get("batch") else "") + ("/poison=" + case["poison"] if case.get("poison") else "")
+        return f"stdio-burst/{o.get('outcome')}/k{'<100' if case['k'] < 100 else '>=100'}/ver={case.get('ver')}" + ("/batch" if case.get("batch") else "") + (f"/monitor={case['monitor']}" if case.get("monitor") else "") + ("/payload=" + type(case["payload"]).__name__ if "payload" in case else "") + ("/poison=" + case["poison"] if case.get("poison") else "")
 
     def nontrivial(self, case, o):
         return case["k"] > 0
 
     def oracle(self, case, o):
-        if o.get("outcome") == "returned" and o.get("p") == {"answer": case["k"]}:
+        if "payload" in case and case["payload"] is None:
+            # what the caller is handed for `result: null` is not defined by the property; that the
+            # response REACHES it is
+            if o.get("outcome") in ("returned", "harness-error"):
+                return None
+            return ("lost-response/other", f"single caller on a stdio connection: its response (result: null) never reached it ({o.get('outcome')} {o.get('exc', '')})", {"outcome": "returned"})
+        if o.get("outcome") == "returned" and o.get("p") == self.want(case) and type(o.get("p")) is type(self.want(case)):
             return None
         if o.get("outcome") == "returned":
-            return ("cross-talk", f"single caller on stdio was handed {o.get('p')!r}", {"p": {"answer": case["k"]}})
+            return ("cross-talk", f"single caller on stdio was handed {o.get('p')!r}", {"p": self.want(case)})
         if o.get("outcome") == "harness-error":
             return None
         return ("lost-response/other", f"single caller on a stdio connection: the response written after a burst of {case['k']} notifications never reached it ({o.get('outcome')})", {"outcome": "returned"})
